@@ -69,13 +69,14 @@ def judge(ctx, groups, impl):
         iw = impl[cw.id]
         ips = [impl[p.id] for p in parts]
         if iw.get('status') != 'ok' or any(p.get('status') != 'ok' for p in ips):
-            ctx.problem('oracle', '`%s` fails on a valid history' % cw.meta['kind'], cw, {}, signature='history-fails')
+            failing = cw if iw.get('status') != 'ok' else next(p for p, o in zip(parts, ips) if o.get('status') != 'ok')
+            ctx.problem('oracle', '`%s` fails on a valid history' % cw.meta['kind'], failing, {}, signature='history-fails', related=[cw] + parts)
             continue
         if per_day:
             cat = b''.join(unhx(p['out']) for p in ips)
             if unhx(iw['out']) != cat:
                 ctx.problem('oracle', '`%s` of the concatenated log is not the concatenation of the reports of its parts' % cw.meta['kind'], cw,
-                            {'whole': unhx(iw['out']).decode('utf-8', 'replace')[:1200], 'parts_concatenated': cat.decode('utf-8', 'replace')[:1200]}, signature='per-day-not-compositional')
+                            {'whole': unhx(iw['out']).decode('utf-8', 'replace')[:1200], 'parts_concatenated': cat.decode('utf-8', 'replace')[:1200]}, signature='per-day-not-compositional', related=parts)
         else:
             kind = ' '.join(x.decode() for x in cw.path)
             try:
@@ -93,7 +94,7 @@ def judge(ctx, groups, impl):
             if bad:
                 ctx.problem('oracle', '`%s` of the concatenated log is not the element-wise sum of its parts (rows %s)' % (kind, [b.decode('utf-8', 'replace') for b in bad[:3]]), cw,
                             {'whole': {k.decode('utf-8', 'replace'): [str(x) for x in v] for k, v in list(whole.items())[:20]},
-                             'sum_of_parts': {k.decode('utf-8', 'replace'): [str(x) for x in v] for k, v in list(acc.items())[:20]}}, signature='period-not-additive')
+                             'sum_of_parts': {k.decode('utf-8', 'replace'): [str(x) for x in v] for k, v in list(acc.items())[:20]}}, signature='period-not-additive', related=parts)
 
 
 def run(ctx):
